@@ -494,6 +494,9 @@ def cross_reference(nodes, warn=null_warn):
             except calc.ParseError as e:
                 warn(str(e))
                 node_.numeric_size = None
+            if isinstance(node_.numeric_size, six.string_types):
+                warn("array size '%s' does not name a number" % node_.size)
+                node_.numeric_size = None
 
     for node in nodes:
         if isinstance(node, Typedef):
